@@ -4,3 +4,11 @@
 package walker
 
 //@ maprange-unordered walker.Walk 1 diagnostics are an unordered collection (C03, C15)
+
+// ---- C15: inside a block whose dependent body could not be (fully) resolved nothing is reported as
+// ---- unexpected: the body is walked with the unknown-schema flag.
+//@ contract walker.Walk (ctx, node, nodeSchema, w) (diags)
+//@   ghost unresolved after MergeBlockBodySchemas#1 : result == schemahelper.LookupFailed || result == schemahelper.LookupPartiallySuccessful
+//@   assert before walker.Walk#3 : [C15] implies(unresolved, schemacontext.HasUnknownSchema(arg0))
+//@   assert before walker.Walk#1 : [C15] implies(!typeis(nodeSchema, "*schema.BodySchema"), schemacontext.HasUnknownSchema(arg0))
+//@   assert before walker.Walk#2 : [C15] implies(!typeis(nodeSchema, "*schema.BodySchema"), schemacontext.HasUnknownSchema(arg0))
